@@ -26,6 +26,18 @@ def one(ctx, rng, k):
     dt = int(rng.choice([4000, 2000, 1001]))
     a0, a1 = sorted(rng.choice(n[0] + 1, size=2, replace=False).tolist())
     b0, b1 = sorted(rng.choice(n[1] + 1, size=2, replace=False).tolist())
+    # window classes a reader-selection guard may treat specially: every crossline kept (inline sub-range only, starting
+    # above 0, inline count on every residue mod 4), every inline kept, the whole file given as a window
+    klass = k % 5
+    if klass == 1:
+        b0, b1 = 0, n[1]
+        a0 = max(a0, 1)
+        a1 = max(a1, a0 + 1) if a0 < n[0] else n[0]
+        a0 = min(a0, a1 - 1)
+    elif klass == 2:
+        a0, a1 = 0, n[0]
+    elif klass == 3 and k % 10 == 3:
+        a0, a1, b0, b1 = 0, n[0], 0, n[1]
     if k % 4 == 0:
         a0 = 0
     if k % 4 == 1:
